@@ -727,7 +727,7 @@ fn departing_blocked_cases() -> Value {
 }
 
 fn extra_worker(_tier: &str, task: &Value, _io: &mut crate::pool::WorkerIo) -> Option<Value> {
-    if task.get("departing").is_some() {
+    if task.get("departing").is_some() || task.get("replay").map(|r| r["kind"] == "departing").unwrap_or(false) {
         return Some(departing_blocked_cases());
     }
     None
